@@ -15,12 +15,12 @@ CLAIMS = {
             "Lean proof (global machine invariants by induction over all micro-steps + T1 graph theorem, unbounded) + model/impl correspondence with UAF/canary/allocator oracles"),
     "C02": ("Graph theorem T2 (per-pass completeness + queues drain with fuel = #objects) proved for all heaps. History-level coverage invariant I10 not yet proved; checked per run by the model-independent leak oracle after quiescent collections and by the correspondence of freed sets / allocated_bytes.",
             "Lean proof (T2 completeness, termination) + correspondence + leak oracle"),
-    "C03": ("Proved for every reachable world: a box is released only while it exists, exactly one free event per release, a freed identity stays freed (so every allocation is released at most once in any history), nothing that exists points to a released box; allocated bytes go down by exactly the box size. Step-level theorems on every release site (value marked dead before its fields are released, free after drop, new_cyclic guard emits no drop). Not yet proved as a history theorem: 'each value dropped at most once' after caught panics (needs the isolation invariant, DESIGN.md §10); decided per run by the allocator oracle (double free, layout mismatch, callback on dead value) and the correspondence of ordered drop/free events.",
-            "Lean proof (free-at-most-once over all histories, step theorems) + correspondence + allocator oracle + layout grid"),
+    "C03": ("Proved for every reachable world: a box is released only while it exists, exactly one free event per release, a freed identity stays freed (every allocation released at most once in any history), nothing that exists points to a released box; allocated bytes go down by exactly the box size. Proved for every history in which no panic has been unwound (HistR: all operations, callbacks, nested/automatic collections, resurrection, cleaners, new_cyclic): drop_in_place runs only on an intact value in an allocated box (drop_only_alive), EVERY VALUE IS DROPPED AT MOST ONCE in the whole history (dropped_at_most_once), nothing is done to an object after its destruction (no second drop, no finalize), a destroyed value stays destroyed and its identity is never reused, and every allocated box whose value is gone is owned by a frame (the Cc::drop destroying it, the new_cyclic building it, the deallocate_list loop) - invariant Life by induction over every running micro-step. Step theorems on every release site (value marked dead before its fields are released, free after drop, new_cyclic guard emits no drop). After a caught panic 'dropped at most once' is not proved (needs the isolation invariant, DESIGN.md §10): decided per run by the allocator oracle (double free, layout mismatch, callback on dead value) and the correspondence of ordered drop/free events.",
+            "Lean proof (free-at-most-once over all histories; drop-at-most-once and life-cycle invariant over panic-free histories) + correspondence + allocator oracle + layout grid"),
     "C04": ("Proved for every reachable world of the machine (any programs, callbacks, collections, injected panics, unwinding): the count of every box is >= the number of Cc pointers to it that exist (count_never_too_low); a box with count 0 / a freed box has no pointer to it; no pointer targets a freed box. Proved for every world of every panic-free history (no unwinding step executed so far; callbacks, nested/automatic collections, resurrection, cleaners, new_cyclic all included): strong_count is EXACT, count = number of existing pointers (strong_count_exact; same induction over all operations and frame steps with both inequalities, plus two auxiliary invariants: table indices of allocation frames in range, slot-map free lists name empty slots), also stated for what the driver computes for a panic-free program (strong_count_exact_prog); a concrete reachable world after a caught panic with count > pointers shows the restriction is necessary (the property allows exactly that). Step-level theorems for clone/drop (exactly +1/-1, last owner destroys in the same step whether buffered or not, listed objects only decremented). 'Everything it solely owned is reclaimed before drop returns' is checked per run (ordered events) and by the count oracle.",
             "Lean proof (count invariant, exact in panic-free histories, by induction over all micro-steps) + correspondence + count oracle"),
-    "C05": ("Step-level theorems: finalized flag set before the call, pass skips finalized members, a pass that finalized re-buffers and drops nothing, objects created while finalizing are born finalized, no finalizer frames without the feature. 'Only on garbage' is C01's T1. Ordering over whole histories checked per run (ordered F/D events, neighbour-canary oracle inside finalizers).",
-            "Lean step theorems + T1 + correspondence + finalizer oracle"),
+    "C05": ("Proved for every history in which no panic has been unwound: a finalizer is only ever called on an intact value in an allocated box (finalize_only_alive) and no finalize x follows drop x in the log of the whole history (no_finalize_after_drop) - from the life-cycle invariant Life (Proofs/Life*.lean, induction over every running micro-step). Step-level theorems: finalized flag set before the call on both paths, pass skips finalized members, a pass that finalized re-buffers and drops nothing (all finalizers of a set before any destructor), only a quiet pass deallocates, objects created while finalizing are born finalized, no finalizer frames without the feature. 'Only on garbage' is C01's candidate theorem. 'At most once unless re-armed' over whole histories and the statements after caught panics are checked per run (ordered F/D events, finalize-twice and neighbour-canary oracles).",
+            "Lean proof (life-cycle invariant over panic-free histories + step theorems + T1) + correspondence + finalizer oracles"),
     "C06": ("Termination of both tracing queues for every graph (fuel = #objects), pass cap of collect proved at frame level; safety/precision after resurrection are C01/C02 on the re-buffered state. Checked per run on resurrecting finalizer scripts.",
             "Lean proof (termination, pass cap) + correspondence"),
     "C07": ("Global invariant I6 'flags are the stack' proved preserved by EVERY micro-step (running and unwinding) for all programs, scripts and fault plans; corollary: after any history an idle machine has collecting=finalizing=dropping=false, is_tracing false, a new collection can start. Safety in continuations relies on C01/C03/C05/C08 (see those). Fault sweep in the correspondence.",
